@@ -24,7 +24,7 @@ EXPLANATION = (
     "discipline is a CFG must-pass-through check (mutation of the coordinates -> reset of _rmsd_traces before normal "
     "exit); non-mutation of inputs by analysis/save functions is an inter-procedural effect analysis over .py and "
     ".pyx with const-ness taken from the extern prototypes.")
-NOT_DECIDED = ["numerical equality with numpy indexing (the rule shows that the same key is applied to every field)",
+NOT_DECIDED = ["numerical equality beyond the operations and key shapes evaluated by C03-R7 (join, stack, slice with slice / index-list keys, atom_slice, center_coordinates); boolean-mask keys",
                "exceptional exits (a kernel raising between an in-place update and the cache reset)"]
 ASSUMPTIONS = ["numpy semantics of the modelled functions (np.array copies, np.asarray / ensure_type may return the argument, "
                "basic indexing returns a view)", "Topology.subset/join/copy return new objects (C04 decides their content)"]
